@@ -361,7 +361,7 @@ class ADInterpreter(Pytree):
                             Dual.tree_primal(in_vals[0]),
                             *reversed(branch_adev_functions),
                             key,
-                            in_vals[1:],
+                            Dual.tree_pure(in_vals[1:]),
                         )
 
                     # Default JVP rule for other JAX primitives.
